@@ -34,12 +34,13 @@ CONSTANTS MaxN,      \* glyph counts 1..MaxN
           RuleTypes, \* subset of {1, 3, 4}
           LigLens,   \* numbers of components of a ligature rule, subset of 1..3
           Kinds,     \* subset of {"ttf", "cff", "cid"}
+          TextSel,   \* "none" | "A" | "mix": explicit glyph texts for MakeSimple (CFF kinds)
           Flags,     \* TRUE: also vary the subtable formats (Gsub1_1/1_2, cmap 4/12)
           Quiet      \* TRUE: no CASE output (exhaustive satisfiability runs)
 
-VARIABLES n, stage, given, pcls, todo, cm, rules, prt, kind, keep, d1, cm12
+VARIABLES n, stage, given, pcls, todo, cm, rules, prt, kind, keep, d1, cm12, txt
 
-vars == <<n, stage, given, pcls, todo, cm, rules, prt, kind, keep, d1, cm12>>
+vars == <<n, stage, given, pcls, todo, cm, rules, prt, kind, keep, d1, cm12, txt>>
 
 ---------------------------------------------------------------------------
 (* The pool of given names: chosen to collide with everything the          *)
@@ -54,6 +55,9 @@ N_orn001 == <<111, 114, 110, 48, 48, 49>>
 N_orn002 == <<111, 114, 110, 48, 48, 50>>
 N_A1     == <<65, 46, 49>>                       \* "A.1"
 N_i_j1   == <<105, 95, 106, 46, 49>>             \* "i_j.1"
+N_A2     == <<65, 46, 50>>                       \* "A.2"
+N_Aalt1  == <<65, 46, 97, 108, 116, 49>>         \* "A.alt1"
+N_Aalt2  == <<65, 46, 97, 108, 116, 50>>         \* "A.alt2"
 N_ctl    == <<1>>                                \* not printable
 N_sp     == <<97, 32, 98>>                       \* "a b"
 N_dig    == <<49, 97, 98, 99>>                   \* "1abc": starts with a digit
@@ -63,7 +67,16 @@ N_utf    == <<195, 169>>                         \* e-acute, UTF-8
 PoolTiny == {N_A, N_i_j, N_orn001, N_A1, N_ctl, NOTDEF}
 PoolFull == {N_A, N_i, N_j, N_ij, N_i_j, N_space, N_orn001, N_orn002, N_A1, N_i_j1,
              N_ctl, N_sp, N_dig, N_long, N_utf, NOTDEF}
-Pool == IF PoolSel = "tiny" THEN PoolTiny ELSE PoolFull
+\* names that collide with the first, second and third candidate for one base name
+PoolClash == {N_A, N_A1, N_A2, N_Aalt1, N_Aalt2}
+Pool == IF PoolSel = "tiny" THEN PoolTiny ELSE IF PoolSel = "clash" THEN PoolClash ELSE PoolFull \cup PoolClash
+
+\* texts a glyph may stand for in MakeSimple; several glyphs may share one text, so that three
+\* and more glyphs compete for one glyph-list name and its variants
+Texts == CASE TextSel = "A"   -> {<<65>>}
+           [] TextSel = "mix" -> {<<65>>, <<105, 106>>, <<307>>, <<545>>}
+           [] OTHER           -> {}
+HasText == Texts # {} /\ kind # "ttf"
 
 Own(g) == <<103, 48 + g>>                        \* "g0" .. "g9": a name nobody else has
 
@@ -79,6 +92,7 @@ Init == /\ n \in 1..MaxN
         /\ kind \in Kinds /\ keep = 0
         /\ d1 \in (IF Flags THEN BOOLEAN ELSE {FALSE})
         /\ cm12 \in (IF Flags THEN BOOLEAN ELSE {FALSE})
+        /\ txt = <<>>
 
 AfterNames(g2) == IF Len(g2) < n THEN "names" ELSE IF todo = <<>> THEN "rules" ELSE "cmap"
 
@@ -91,11 +105,11 @@ NameClass == /\ stage = "names" /\ ~pcls
              /\ \/ AddName(<<>>)
                 \/ AddName(Own(Len(given)))
                 \/ pcls' = TRUE /\ UNCHANGED <<given, stage>>
-             /\ UNCHANGED <<n, todo, cm, rules, prt, kind, keep, d1, cm12>>
+             /\ UNCHANGED <<n, todo, cm, rules, prt, kind, keep, d1, cm12, txt>>
 
 NamePool == /\ stage = "names" /\ pcls
             /\ \E x \in Pool : AddName(x)
-            /\ UNCHANGED <<n, todo, cm, rules, prt, kind, keep, d1, cm12>>
+            /\ UNCHANGED <<n, todo, cm, rules, prt, kind, keep, d1, cm12, txt>>
 
 \* one code point at a time: left unmapped, or (second step, so that a random walk leaves
 \* half of the code points out) mapped to any glyph, glyph 0 included
@@ -106,18 +120,18 @@ CodeDone == /\ todo' = Tail(todo)
 MapClass == /\ stage = "cmap" /\ ~pcls
             /\ \/ CodeDone /\ UNCHANGED cm
                \/ pcls' = TRUE /\ UNCHANGED <<todo, stage, cm>>
-            /\ UNCHANGED <<n, given, rules, prt, kind, keep, d1, cm12>>
+            /\ UNCHANGED <<n, given, rules, prt, kind, keep, d1, cm12, txt>>
 
 MapCode == /\ stage = "cmap" /\ pcls
            /\ \E g \in 0 .. n - 1 : cm' = Append(cm, <<Head(todo), g>>)
            /\ CodeDone
-           /\ UNCHANGED <<n, given, rules, prt, kind, keep, d1, cm12>>
+           /\ UNCHANGED <<n, given, rules, prt, kind, keep, d1, cm12, txt>>
 
 RuleType == /\ stage = "rules" /\ prt = 0
-            /\ \/ stage' = "shape" /\ UNCHANGED prt
+            /\ \/ stage' = (IF HasText THEN "text" ELSE "shape") /\ UNCHANGED prt
                \/ /\ Len(rules) < MaxRules
                   /\ prt' \in RuleTypes /\ UNCHANGED stage
-            /\ UNCHANGED <<n, given, pcls, todo, cm, rules, kind, keep, d1, cm12>>
+            /\ UNCHANGED <<n, given, pcls, todo, cm, rules, kind, keep, d1, cm12, txt>>
 
 LastSub == IF rules = <<>> THEN 0 ELSE rules[Len(rules)].sub
 
@@ -139,16 +153,30 @@ RuleArgs == /\ stage = "rules" /\ prt # 0
                     rules' = Append(rules, [t |-> prt, src |-> src, dst |-> dst,
                                             sub |-> IF join THEN LastSub ELSE LastSub + 1])
             /\ prt' = 0
-            /\ UNCHANGED <<n, stage, given, pcls, todo, cm, kind, keep, d1, cm12>>
+            /\ UNCHANGED <<n, stage, given, pcls, todo, cm, kind, keep, d1, cm12, txt>>
+
+\* one glyph at a time: no text, or (second step) one of the texts; glyphs may share a text
+AddText(t) == /\ txt' = Append(txt, t)
+              /\ stage' = IF Len(txt) + 1 < n THEN "text" ELSE "shape"
+              /\ pcls' = FALSE
+
+TextClass == /\ stage = "text" /\ ~pcls
+             /\ \/ AddText(<<>>)
+                \/ pcls' = TRUE /\ UNCHANGED <<txt, stage>>
+             /\ UNCHANGED <<n, given, todo, cm, rules, prt, kind, keep, d1, cm12>>
+
+TextPick == /\ stage = "text" /\ pcls
+            /\ \E t \in Texts : AddText(t)
+            /\ UNCHANGED <<n, given, todo, cm, rules, prt, kind, keep, d1, cm12>>
 
 \* how many of the given names the font carries: all of them (CFF), none (CID-keyed), any
 \* prefix for TrueType (0 = no names, n = complete list, in between = a short names list)
 Shape == /\ stage = "shape"
          /\ keep' \in (IF kind = "ttf" THEN 0..n ELSE IF kind = "cff" THEN {n} ELSE {0})
          /\ stage' = "done"
-         /\ UNCHANGED <<n, given, pcls, todo, cm, rules, prt, kind, d1, cm12>>
+         /\ UNCHANGED <<n, given, pcls, todo, cm, rules, prt, kind, d1, cm12, txt>>
 
-Next == NameClass \/ NamePool \/ MapClass \/ MapCode \/ RuleType \/ RuleArgs \/ Shape
+Next == NameClass \/ NamePool \/ MapClass \/ MapCode \/ RuleType \/ RuleArgs \/ TextClass \/ TextPick \/ Shape
 Spec == Init /\ [][Next]_vars
 
 done == stage = "done"
@@ -162,6 +190,11 @@ TextsOf(g) == {<<cm[k][1]>> : k \in {k \in 1..Len(cm) : cm[k][2] = g}}
 Prob(gv) == [n |-> n, given |-> gv,
              texts |-> [k \in 1..n |-> TextsOf(k - 1)],
              rules |-> rules]
+
+\* the problem MakeSimple solves: explicit texts, no GSUB
+ProbSimple(gv) == [n |-> n, given |-> gv,
+                   texts |-> [k \in 1..n |-> IF txt[k] = <<>> THEN {} ELSE {txt[k]}],
+                   rules |-> <<>>]
 
 ---------------------------------------------------------------------------
 (* Two reference completions.  Style "A": glyphs served in increasing      *)
@@ -250,6 +283,11 @@ RefLaw ==
   done => \A st \in Styles : \A k \in 1..Len(Readings(Names, n)) :
              LET P == Prob(Readings(Names, n)[k]) IN Law(P, Ref(P, st))
 
+\* the same for the MakeSimple problem (k glyphs sharing one text, names and variants taken)
+RefLawSimple ==
+  (done /\ txt # <<>>) => \A st \in Styles :
+             LET P == ProbSimple(Pad(Names, n)) IN Law(P, Ref(P, st))
+
 \* installing the result and asking again returns the same names
 RefStable ==
   done => \A st \in Styles :
@@ -270,7 +308,7 @@ Refuses ==
 BugAccepted == done => LET P == Prob(Pad(Names, n)) IN Law(P, Ref(P, "X"))
 
 CaseRec == [n |-> n, kind |-> kind, names |-> Names, cmap |-> cm, rules |-> rules,
-            d1 |-> d1, cm12 |-> cm12]
+            d1 |-> d1, cm12 |-> cm12, text |-> txt]
 
 Emit == (done /\ ~Quiet) => PrintT(<<"CASE", ToJson(CaseRec)>>)
 =============================================================================
